@@ -42,13 +42,17 @@ def cases(draw, family=None):
          "nseed": draw(st.integers(0, 2 ** 20))}
     # one case in four re-uses a model object that was fitted on another building before
     c["prefit"] = draw(st.sampled_from([None, None, None, "heating", "cooling", "flat"]))
+    # the other weather year may come from a harsher or a milder climate than the baseline year (its days then leave the baseline's
+    # temperature range): shift of the annual mean and extra amplitude, in degrees F
+    c["year2"] = draw(st.sampled_from([[0.0, 0.0], [0.0, 0.0], [0.0, 9.0], [-8.0, 4.0], [8.0, 4.0], [0.0, -6.0]]))
     return c
 
 
-def gen_year(c, start_day, wseed):
+def gen_year(c, start_day, wseed, shift=(0.0, 0.0)):
     idx = synth.local_midnights(start_day, 365, c["tz"])
     rng = np.random.default_rng(wseed)
-    T = synth.daily_temperature(idx, c["weather"], rng)
+    w = dict(c["weather"], mean=c["weather"]["mean"] + shift[0], amp=max(c["weather"]["amp"] + shift[1], 5.0))
+    T = synth.daily_temperature(idx, w, rng)
     y = synth.curve(T, {"base": c["base"], "hs": c["hs"], "hb": c["hb"], "cs": c["cs"], "cb": c["cb"]})
     return idx, T, y
 
@@ -65,7 +69,9 @@ def judge(c, rec):
     obs = y * (1 + c["noise"] * np.clip(rng.normal(0, 0.5, len(y)), -1, 1))
     fam = c["family"]
     cls = ["family=" + fam, "shape=" + c["shape"], "reused-model=%d" % bool(c.get("prefit") and fam == "daily_legacy")]
-    idx2, T2, y2 = gen_year(c, c["start_day"] + 365 + 30, c["wseed2"])
+    idx2, T2, y2 = gen_year(c, c["start_day"] + 365 + 30, c["wseed2"], tuple(c.get("year2", (0.0, 0.0))))
+    outside = int(((T2 < T.min() - 1) | (T2 > T.max() + 1)).sum())
+    cls.append("other-year-days-outside-baseline-range=" + ("0" if outside == 0 else "1-19" if outside < 20 else "20+"))
     with contextlib.redirect_stdout(io.StringIO()):
         if fam == "billing":
             df = pd.DataFrame({"temperature": T, "observed": np.nan}, index=idx)
